@@ -449,6 +449,7 @@ static void part_gap(const hm::Args& a, bool quick) {
         for (auto& k : putkeys) ops.push_back({true, k});
         Report rp;
         rp.part = "gap/" + t.name;
+        hm::crash_part(rp.part, "gap:" + sh->name);
         double s0 = ykmc::mono_now();
         std::map<std::string, int> seen;
         for (int r2l = 0; r2l < 2; ++r2l) {
@@ -469,6 +470,8 @@ static void part_gap(const hm::Args& a, bool quick) {
                     }
                     for (auto& w : cases) {
                         bool applied = false;
+                        auto describe = [&]() { return gap_case(t.name, r2l != 0, early != 0, gap, w); };
+                        hm::CrashScope crash_scope(describe);
                         std::string e = check_gap(t, r2l != 0, early != 0, gap, w, applied);
                         rp.evaluations++;
                         if (applied) rp.nontrivial++;
@@ -504,6 +507,7 @@ static void part_gap(const hm::Args& a, bool quick) {
 
 int main(int argc, char** argv) {
     hm::Args a = hm::parse(argc, argv);
+    hm::install_crash_reporter("ykenum");
     std::string part = a.extra.empty() ? "scan" : a.extra[0]; // scan | iscan
     bool quick = a.tier == "quick";
     if (part == "gap" && a.replay_scenario.empty()) {
@@ -557,6 +561,7 @@ int main(int argc, char** argv) {
         if ((idx++ % a.nshards) != a.shard) continue;
         Report rp;
         rp.part = part + "/" + t.name;
+        hm::crash_part(rp.part, "enum");
         double s0 = ykmc::mono_now();
         if (deadline > 0 && s0 > deadline) {
             printf("{\"part\":\"%s\",\"skipped\":\"deadline\"}\n", hm::jesc(rp.part).c_str());
@@ -588,22 +593,30 @@ int main(int argc, char** argv) {
                         if (part == "scan") {
                             for (size_t max : {0u, 1u, 2u, 3u}) {
                                 for (int r2l = 0; r2l < 2; ++r2l) {
+                                    auto describe = [&]() { return range_str(t.name, l, le, r, re, max, r2l != 0, "scan"); };
+                                    hm::CrashScope crash_scope(describe);
                                     std::string e = check_scan(b, l, le, r, re, max, r2l != 0, false);
                                     rp.evaluations++;
                                     if (!e.empty()) record(e, range_str(t.name, l, le, r, re, max, r2l != 0, "scan"), "scan");
                                 }
                             }
                             // the name based entry point once per range (argument checks live there too)
+                            auto describe = [&]() { return range_str(t.name, l, le, r, re, 0, false, "scan_name"); };
+                            hm::CrashScope crash_scope(describe);
                             std::string e = check_scan(b, l, le, r, re, 0, false, true);
                             rp.evaluations++;
                             if (!e.empty()) record(e, range_str(t.name, l, le, r, re, 0, false, "scan_name"), "scan");
                         } else {
                             for (int r2l = 0; r2l < 2; ++r2l) {
                                 for (int early = 0; early < 2; ++early) {
+                                    auto describe = [&]() { return range_str(t.name, l, le, r, re, size_t(early), r2l != 0, "iscan"); };
+                                    hm::CrashScope crash_scope(describe);
                                     std::string e = check_iscan(b, l, le, r, re, r2l != 0, early != 0, false);
                                     rp.evaluations++;
                                     if (!e.empty()) record(e, range_str(t.name, l, le, r, re, size_t(early), r2l != 0, "iscan"), "iscan");
                                 }
+                                auto describe = [&]() { return range_str(t.name, l, le, r, re, 0, r2l != 0, "iscan_name"); };
+                                hm::CrashScope crash_scope(describe);
                                 std::string e = check_iscan(b, l, le, r, re, r2l != 0, false, true);
                                 rp.evaluations++;
                                 if (!e.empty()) record(e, range_str(t.name, l, le, r, re, 0, r2l != 0, "iscan_name"), "iscan");
